@@ -478,6 +478,19 @@ static std::string gfqx_f(void* c) {
     GfqxCtx* x = (GfqxCtx*) c;
     return x->w == 32 ? gfqx_once<GFqExtFast<int32_t> >(x->p, x->e, x->seed, x->n) : gfqx_once<GFqExt<int64_t> >(x->p, x->e, x->seed, x->n);
 }
+// gf2ref <op> <seed> <n>      GF2::random / nonzerorandom on a BitReference (std::vector<bool>::reference)
+static std::string gf2ref_once(const std::string& op, uint64_t seed, int n) {
+    GF2 F; GivRandom g(seed);
+    std::vector<bool> v((size_t) n, false);
+    std::ostringstream o;
+    for (int i = 0; i < n; ++i) {
+        if (op == "random") F.random(g, v[(size_t) i]); else if (op == "random_sz") F.random(g, v[(size_t) i], (uint8_t) 2);
+        else if (op == "nzrandom") F.nonzerorandom(g, v[(size_t) i]); else return "UNKNOWN-OP";
+        o << (v[(size_t) i] ? "1 " : "0 ");
+    }
+    o << "| " << g.seed();
+    return o.str();
+}
 struct ExtCtx { uint64_t p, e; std::string op; uint64_t seed; int n; int64_t s; };
 static std::string ext_f(void* c) { ExtCtx* x = (ExtCtx*) c; return ext_once(x->p, x->e, x->op, x->seed, x->n, x->s); }
 
@@ -744,6 +757,11 @@ static std::string dispatch(const std::string& kind, const Args& a) {
         if (a.size() < 2) return "BAD-LINE";
         QfCtx c; c.form = a[0]; c.seed = pu64(a[1]); c.a = Args(a.begin() + 2, a.end());
         return twice(qf_f, &c);
+    }
+    if (kind == "gf2ref") {
+        if (a.size() < 3) return "BAD-LINE";
+        std::string s1 = gf2ref_once(a[0], pu64(a[1]), atoi(a[2].c_str())), s2 = gf2ref_once(a[0], pu64(a[1]), atoi(a[2].c_str()));
+        return s1 == s2 ? s1 : "NONREPRO " + s1 + " || " + s2;
     }
     if (kind == "gfqx") {
         if (a.size() < 5) return "BAD-LINE";
